@@ -174,7 +174,7 @@ INT_WIDTH = {'u8': 8, 'u16': 16, 'u32': 32, 'u64': 64, 'usize': 64, 'i32': 32, '
 class Machine:
     def __init__(self, ast, hash_order='insertion', release=False, solver_timeout_ms=20000, fuel=400000):
         self.fns = {}; self.impls = {}; self.enums = dict(BUILTIN_ENUMS); self.structs = {}; self.statics = {}
-        self.variant_fields = {}; self.from_impls = {}; self.fn_file = {}; self.nested = {}
+        self.variant_fields = {}; self.from_impls = {}; self.fn_file = {}; self.nested = {}; self.variant_names = {}; self.struct_derives = {}
         for path, f in ast.items(): self.load_items(f['items'], path)
         self.solver = z3.Solver()
         self.solver.set('timeout', solver_timeout_ms)
@@ -213,8 +213,11 @@ class Machine:
                     else: tbl[f['name']] = f
             elif k == 'enum':
                 self.enums[it['name']] = [v['name'] for v in it['variants']]
-                for v in it['variants']: self.variant_fields[(it['name'], v['name'])] = len(v['fields'])
-            elif k == 'struct': self.structs[it['name']] = {f['name']: f['ty'] for f in it['fields']}
+                for v in it['variants']:
+                    self.variant_fields[(it['name'], v['name'])] = len(v['fields'])
+                    if v.get('named'): self.variant_names[(it['name'], v['name'])] = list(v['fields'])
+            elif k == 'struct':
+                self.structs[it['name']] = {f['name']: f['ty'] for f in it['fields']}; self.struct_derives[it['name']] = ' '.join(it.get('derives', []))
             elif k == 'mod': self.load_items(it['items'], path)
             elif k == 'itemmacro' and it['mac']['k'] == 'macro_raw' and 'static' in it['mac']['idents']:
                 ids = it['mac']['idents']
@@ -576,6 +579,11 @@ class Machine:
             if isinstance(v, RStruct):
                 if k != 'pstruct' or v.name != variant: raise Unsupported('struct pattern')
                 return all(self.bind(f['pat'], v.f[f['name']], env) for f in p['fields'])
+            if k == 'pstruct':
+                if v.variant != variant: return False
+                order = self.variant_names.get((v.enum, v.variant))
+                if order is None: raise Unsupported('struct pattern on variant %s::%s' % (v.enum, v.variant))
+                return all(self.bind(f['pat'], v.p[order.index(f['name'])], env) for f in p['fields'])
             if v.variant != variant: return False
             if k == 'ptuplestruct':
                 if len(p['elems']) != len(v.p):
@@ -618,10 +626,25 @@ class Machine:
         if ty in self.enums and n in self.enums[ty]:
             return RCtor(ty, n) if self.variant_has_fields(ty, n) else REnum(ty, n, [])
         if ty in self.impls and n in self.impls[ty]: return RFn(self.impls[ty][n])
+        if n == 'default' and ty in self.structs and 'Default' in self.struct_derives.get(ty, ''):
+            return lambda: self.default_struct(ty)
         b = BUILTIN_FNS.get((ty, n))
         if b: return lambda *a: b(self, *a)
         if n in self.fns and ty in ('crate', 'super', 'self', 'parser', 'necessity', 'element', 'xml_schema_generator'): return RFn(self.fns[n])
         raise Unsupported('path %s at %s' % ('::'.join(p), e['sp']))
+    def default_value(self, ty):
+        t = ty.replace(' ', '')
+        if t in ('String', '&str'): return RStr('')
+        if t in INT_WIDTH: return 0
+        if t == 'bool': return False
+        if t.startswith('Option<'): return NONE()
+        if t.startswith('Vec<') or t.startswith('VecDeque<'): return RVec()
+        if t.startswith('HashMap<'): return RMap()
+        if t.startswith('HashSet<'): return RSet()
+        if t in self.structs and 'Default' in self.struct_derives.get(t, ''): return self.default_struct(t)
+        raise Unsupported('Default for type ' + ty)
+    def default_struct(self, name):
+        return RStruct(name, {f: self.default_value(t) for f, t in self.structs[name].items()})
     def static(self, n):
         v = self.statics[n]
         if isinstance(v, tuple) and v[0] == 'lazy':
@@ -874,6 +897,10 @@ class Machine:
     def e_array(self, e, env): return RVec([self.expr(x, env) for x in e['elems']])
     def e_range(self, e, env):
         return RRange(self.expr(e['start'], env) if e['start'] else 0, self.expr(e['end'], env) if e['end'] else None, e.get('inclusive', False))
+    def e_repeat(self, e, env):
+        v = self.expr(e['e'], env); n = self.expr(e['n'], env)
+        if not isinstance(n, int): raise Unsupported('symbolic repeat length')
+        return RVec([deep(v) for _ in range(n)])
     def e_cast(self, e, env):
         v = self.expr(e['e'], env)
         if isinstance(v, int) and e['ty'] in INT_WIDTH: return v & ((1 << INT_WIDTH[e['ty']]) - 1)
@@ -885,7 +912,12 @@ class Machine:
     def e_structlit(self, e, env):
         name = e['path'][-1]
         if name == 'Self': name = env.get('Self')
-        if len(e['path']) >= 2 and e['path'][-2] in self.enums: raise Unsupported('struct-like enum variant literal')
+        if len(e['path']) >= 2 and (e['path'][-2] in self.enums or (e['path'][-2] == 'Self' and env.get('Self') in self.enums)):
+            en = e['path'][-2] if e['path'][-2] != 'Self' else env.get('Self')
+            order = self.variant_names.get((en, name))
+            if order is None: raise Unsupported('struct-like enum variant literal %s::%s' % (en, name))
+            vals = {fl['name']: self.expr(fl['e'], env) for fl in e['fields']}
+            return REnum(en, name, [vals[k] for k in order])
         f = {}
         if e.get('rest') is not None:
             base = self.expr(e['rest'], env); f = dict(base.f)
@@ -1042,6 +1074,7 @@ BUILTIN_FNS = {
     ('mem', 'swap'): lambda m, a, b: _mem_swap(m, a, b), ('mem', 'replace'): lambda m, a, b: _mem_replace(m, a, b),
     ('cmp', 'min'): lambda m, a, b: b if m.branch(m.lt(b, a)) else a, ('cmp', 'max'): lambda m, a, b: a if m.branch(m.lt(b, a)) else b,
     ('BTreeMap', 'new'): lambda m: _btree(RMap()), ('BTreeSet', 'new'): lambda m: _btree(RSet()),
+    ('String', 'default'): lambda m: RStr(''), ('Vec', 'default'): lambda m: RVec(), ('HashMap', 'default'): lambda m: RMap(), ('HashSet', 'default'): lambda m: RSet(),
     ('env_logger', 'init'): lambda m: UNIT, ('mem', 'drop'): lambda m, v: UNIT, ('mem', 'take'): lambda m, v: (_ for _ in ()).throw(Unsupported('mem::take')),
     ('OnceCell', 'new'): lambda m: RStruct('OnceCell', {'v': NONE()}), ('OnceLock', 'new'): lambda m: RStruct('OnceCell', {'v': NONE()}),
     ('RefCell', 'new'): lambda m, v: RStruct('RefCell', {'v': v}), ('Cell', 'new'): lambda m, v: RStruct('RefCell', {'v': v}),
